@@ -57,6 +57,9 @@ func c12Doc(name string, v2pub phase0.BLSPubKey) ([]byte, error) {
 		// resolvable for validator 2 (first entry matches), unresolvable for everybody else (an entry
 		// whose proposer is the zero public key cannot be applied)
 		return []byte(`{"version":2,"fee_recipient":"` + feeA + `","relays":{"` + c12Relay + `":{}},"proposers":[{"proposer":"` + v2pub.String() + `","fee_recipient":"` + feeP + `"},{"proposer":"0x` + strings.Repeat("00", 48) + `"}]}`), nil
+	case "V1":
+		// legacy format: the default configuration leaves gas limit and builder to be filled in
+		return []byte(`{"default_config":{"fee_recipient":"` + feeA + `"}}`), nil
 	case "err":
 		return nil, errors.New("scripted fetch failure")
 	case "malformed":
